@@ -182,20 +182,16 @@ T_GRID = ["1", "1", "1/2", "2", "4", "10", "100", "1/4", "1/16", "0", "1/4194304
 
 
 def regime(vals16, T, sh):
-    """'ok' if for q and q+sh the largest exponent max/T lies in [-12, 600] (the unrepaired code then
-       has sum(exp) > 1e-6 and no overflow); 'under' if some max/T is in [-600,-15] and none overflows;
-       None otherwise (ambiguous band or overflow: not generated)."""
+    """'under' if for q or q+sh the largest exponent max/T is <= -15 (where the code before d617783 lost the
+       distribution), else 'ok'.  No case is rejected any more: /repo subtracts the row maximum, so shifts
+       by +-1000 at T = 1 (exponents of +-1000) are legitimate inputs."""
     if T <= Fr(1, 1000000):
         return "ok"
-    r = []
     for c in (Fr(0), sh):
         m = max(Fr(v, 16) + c for v in vals16) / T
-        r.append(m)
-    if all(-12 <= m <= 600 for m in r):
-        return "ok"
-    if all(-600 <= m <= 600 for m in r) and any(m <= -15 for m in r) and all(m <= -15 or m >= -12 for m in r):
-        return "under"
-    return None
+        if m <= -15:
+            return "under"
+    return "ok"
 
 
 def gen_softmax(rng, want):
@@ -272,6 +268,29 @@ def gen_t3c(rng):
     var = rng.choice(["1", "1/4", "4", "25"])
     return "t3c %d %d %s %s %s %d %d" % (A, len(recs), " ".join("%d %s" % r for r in recs), beta, var,
                                         rng.randrange(1 << 30), rng.choice([1, 2, 4]))
+
+
+def gen_msm(rng):
+    """multi-state Q-table whose rows sit at very different offsets relative to the temperature
+       (row r shifted by -k*T*c, c = 100..3000, or by +-1000): per state, table == queries"""
+    S = rng.choice([2, 2, 3, 4]); A = rng.choice([2, 3, 3, 4, 5])
+    T = rng.choice(["1", "1/2", "1/4", "1/16", "1/64", "2", "10", "0"])
+    rows = [gen_q(rng, A) for _ in range(S)]
+    toks = []
+    for r in rows:
+        toks += q_tokens(r)
+    Tf = Fr(T) if Fr(T) > 0 else Fr(1)
+    mode = rng.choice(["down", "down", "mixed", "pm1000"])
+    offs = []
+    ks = list(range(S)); rng.shuffle(ks)
+    for r in range(S):
+        if mode == "down": o = -ks[r] * Tf * rng.choice([100, 300, 1000, 3000])
+        elif mode == "mixed": o = rng.choice([-1, 1, 0]) * Tf * rng.choice([100, 800, 2000])
+        else: o = Fr(rng.choice([-1000, 0, 1000]))
+        if abs(o) > 9000: o = Fr(9000) * (1 if o > 0 else -1)
+        offs.append("%d/%d" % (o.numerator, o.denominator))
+    eps = rng.choice(EPS_GRID)
+    return "msm %s %d %d %s %s %s %d" % (T, S, A, " ".join(toks), L(offs), eps, rng.randrange(1 << 30))
 
 
 def gen_wolf(rng, tier):
@@ -376,7 +395,7 @@ def gen(rng, tier):
     n = {"quick": 900, "thorough": 4500, "search": 1500}[tier]
     out = []
     for _ in range(n):
-        k = rng.choice(["gr", "gr", "epg", "mgr", "lrp", "lrp", "smx", "smx", "smu", "ts", "tsn", "tt", "ttn", "wolf", "wolf", "mpol", "pga", "pga", "pga", "esrl", "sr", "rnd", "t3c"])
+        k = rng.choice(["gr", "gr", "epg", "mgr", "lrp", "lrp", "smx", "smx", "smu", "ts", "tsn", "tt", "ttn", "wolf", "wolf", "mpol", "pga", "pga", "pga", "esrl", "sr", "rnd", "t3c", "msm", "msm"])
         if k == "gr": out.append(gen_gr(rng))
         elif k == "epg": out.append(gen_epg(rng))
         elif k == "mgr": out.append(gen_mgr(rng))
@@ -390,5 +409,6 @@ def gen(rng, tier):
         elif k == "sr": out.append(gen_sr(rng))
         elif k == "rnd": out.append(gen_rnd(rng))
         elif k == "t3c": out.append(gen_t3c(rng))
+        elif k == "msm": out.append(gen_msm(rng))
         else: out.append(gen_thompson(rng, k))
     return [" ".join(c.split()) for c in out]
